@@ -433,8 +433,14 @@ func crashSig(stderr string) (string, string) {
 	return "crash/" + first, tail
 }
 
-func (r *runner) genPlan(seed uint64) json.RawMessage {
-	cmd := exec.Command(r.bins["plain"], "gen", "-prop", r.prop, "-seed", strconv.FormatUint(seed, 10), "-tier", r.tier)
+// genPlan regenerates the plan of a seed with the binary of the variant that ran it (generators may
+// consult the build: e.g. generic targets are not generated in race builds).
+func (r *runner) genPlan(seed uint64, variant string) json.RawMessage {
+	bin := r.bins[variant]
+	if bin == "" {
+		bin = r.bins["plain"]
+	}
+	cmd := exec.Command(bin, "gen", "-prop", r.prop, "-seed", strconv.FormatUint(seed, 10), "-tier", r.tier)
 	cmd.Env = childEnv(r.scratch, "plain")
 	b, err := cmd.Output()
 	if err != nil {
@@ -510,7 +516,7 @@ func (r *runner) runJob(j job, sample int) {
 				r.mu.Unlock()
 			} else {
 				x := &result{Prop: r.prop, Seed: *crashed, Verdict: "violation", Sig: sig, Msg: tail, At: "process crash", variant: j.variant}
-				x.Plan = r.genPlan(*crashed)
+				x.Plan = r.genPlan(*crashed, j.variant)
 				r.mu.Lock()
 				r.results = append(r.results, x)
 				r.mu.Unlock()
@@ -541,7 +547,7 @@ func (r *runner) attributeRace(from, to uint64, crashed *uint64, reports []strin
 		g, _ := parseRaces(stderr)
 		if len(g) > 0 {
 			x := &result{Prop: r.prop, Seed: s, Verdict: "violation", Sig: "race/" + raceKey(g[0]), Msg: g[0], At: "race detector", variant: variant}
-			x.Plan = r.genPlan(s)
+			x.Plan = r.genPlan(s, variant)
 			r.mu.Lock()
 			r.results = append(r.results, x)
 			r.mu.Unlock()
@@ -550,7 +556,7 @@ func (r *runner) attributeRace(from, to uint64, crashed *uint64, reports []strin
 	}
 	// not reproducible alone: report with the first seed of the chunk as context (still a goom race)
 	x := &result{Prop: r.prop, Seed: from, Verdict: "violation", Sig: "race/" + raceKey(reports[0]), Msg: reports[0] + "\n(not attributable to a single plan of the chunk)", At: "race detector", variant: variant}
-	x.Plan = r.genPlan(from)
+	x.Plan = r.genPlan(from, variant)
 	r.mu.Lock()
 	r.results = append(r.results, x)
 	r.mu.Unlock()
@@ -596,6 +602,9 @@ type replayFile struct {
 func sigClass(sig string) string {
 	if strings.HasPrefix(sig, "crash/") {
 		return "crash"
+	}
+	if strings.HasPrefix(sig, "liveness/") {
+		return "liveness" // a leaked lock shows as relock / deadlock inside a run or as a blocked driver outside
 	}
 	return sig
 }
@@ -1088,7 +1097,7 @@ func finish(r *runner, prop, tier string, seed uint64, cfg propCfg, known []know
 					x.Msg = fmt.Sprintf("seed %d: transcript hash %s in the default environment, %s under %s", x.Seed, p.Trans, x.Trans, x.variant)
 					x.At = x.variant
 					if x.Plan == nil {
-						x.Plan = r.genPlan(x.Seed)
+						x.Plan = r.genPlan(x.Seed, x.variant)
 					}
 				}
 			}
@@ -1165,7 +1174,7 @@ func finish(r *runner, prop, tier string, seed uint64, cfg propCfg, known []know
 			// replay the plan together with its predecessors in the same process
 			var plans []json.RawMessage
 			for s := v.BatchFirst; s <= v.Seed; s++ {
-				if p := r.genPlan(s); p != nil {
+				if p := r.genPlan(s, v.variant); p != nil {
 					plans = append(plans, p)
 				}
 			}
